@@ -19,7 +19,7 @@ ASSUMPTIONS = ["V alleles are drawn from those for which tidytcells has sequence
                "tidytcells' get_aa_sequence is the reference the property itself names for CDR1/CDR2"]
 EXHAUSTIVE = {"quick": ["6 classes x 5 index flavours on a fixed witness table", "6 classes x 5 non-table inputs"],
               "thorough": ["6 classes x 5 index flavours x 3 weight settings on a fixed witness table", "6 classes x 5 non-table inputs x 3 argument positions"]}
-REQUIRE = {"same_table_object_edited_then_reused": 41, "cdist_cells_checked": 1205, "asymmetric_indel_cases": 20, "chain_weight_cases": 8,
+REQUIRE = {"self_big_cases": 1, "same_table_object_edited_then_reused": 41, "cdist_cells_checked": 1205, "asymmetric_indel_cases": 20, "chain_weight_cases": 8,
            "loop_weight_cases": 15, "anchors_ne_comparisons_size": 30, "nondefault_index_cases": 30, "additivity_checked": 8,
            "permutation_checked": 20, "pdist_checked": 30, "tables_fingerprinted": 100, "reject_cases": 27,
            "allele_without_cdr2_cases": 5, "single_chain_table_cases": 8}
